@@ -105,10 +105,17 @@ impl Value {
     pub fn as_integer(&self) -> Option<i64> {
         match self {
             Value::String(bytes) => {
-                std::str::from_utf8(bytes)
+                // Only the canonical decimal form counts as an integer: "+1", "01" and "-0"
+                // are strings that happen to contain digits
+                let n = std::str::from_utf8(bytes)
                     .ok()?
                     .parse::<i64>()
-                    .ok()
+                    .ok()?;
+                if n.to_string().as_bytes() == bytes.as_slice() {
+                    Some(n)
+                } else {
+                    None
+                }
             }
             _ => None,
         }
